@@ -780,10 +780,9 @@ int32_t tlsVerify(ssl_t *ssl,
         }
         sigAlgTls = *c << 8; c++;
         sigAlgTls += *c; c++;
-        if (tlsIsSupportedRsaSigAlg(sigAlgTls))
-        {
-            useRsa = PS_TRUE;
-        }
+        /* The key type is the one of the algorithm the peer names, not
+           the default of the suite. */
+        useRsa = tlsIsSupportedRsaSigAlg(sigAlgTls);
         /* Note: this a TLS sig alg ID. */
         hashLen = tlsSigAlgToHashLen(sigAlgTls);
         if (hashLen <= 0)
